@@ -89,7 +89,55 @@ def disabled_does_nothing(ctx):
                   "calls reachable while the ruleset is disabled: %s" % ", ".join(bad[:4]))
 
 
+def engine_keeps_every_ruleset(ctx):
+    """'Each prerun and each detector of every enabled ruleset executes exactly once per tick': the engine runs the rulesets it holds, so its
+    constructor has to hold every ruleset the compiler hands it - the only reason to pass one over is a null pointer."""
+    from ..cfg import CondNorm
+    P = ctx.prog
+    cs = [f for f in P.fns.values() if f.pq == "Oomd::Engine::Engine::Engine" and f.kind == "ctor"]
+    if len(cs) != 1:
+        ctx.broken("engine-keeps-every-ruleset", "anchor", "-", "expected one Engine constructor")
+        return
+    f = ctx.use(cs[0])
+    pn = f.params[0]["name"] if f.params else "rulesets"
+    ls = [l for l in loops(f) if (loop_walk_any(f, l) or {}).get("container", "").replace("param:", "") == pn]
+    keeps = [i for i in f.calls("emplace_back", "push_back") if "rulesets_" in f.text(f.nodes[i].get("recv", -1))]
+    if len(ls) != 1 or not keeps:
+        ctx.broken("engine-keeps-every-ruleset", "anchor", f.loc(), "expected one walk over the constructor's rulesets that appends to rulesets_")
+        return
+    L = ls[0]
+    wk = loop_walk_any(f, L)
+    var = wk.get("var") or "rs"
+    cn = CondNorm(f, P)
+    bad = []
+
+    def reasons(node):
+        facts = []
+        for a in f.ancestors(node):
+            if a == L["stmt"]:
+                break
+            an = f.nodes[a]
+            if an["k"] == "if" and "c" in an:
+                in_then = an.get("then") is not None and (an["then"] == node or node in set(f.walk(an["then"])))
+                facts += cn.decompose(an["c"], in_then)
+        return facts
+    for i, n in enumerate(f.nodes):
+        if n["k"] == "continue" and L["stmt"] in list(f.ancestors(i)):
+            fs = reasons(i)
+            if not any(isinstance(k, str) and re.fullmatch(r"\*?%s(\.get\(\))?|\(nullptr == %s\)" % (re.escape(var), re.escape(var)), k) and p is (False if not k.startswith("(") else True) for k, p in fs):
+                bad.append((i, fs))
+    for i in keeps:
+        fs = [(k, p) for k, p in reasons(i) if not (isinstance(k, str) and re.fullmatch(r"\*?%s(\.get\(\))?" % re.escape(var), k) and p is True)]
+        if fs:
+            bad.append((i, fs))
+    ctx.check(not bad, "engine-keeps-every-ruleset", "guarded_by (lexical)", f.loc(bad[0][0]) if bad else f.loc(L["stmt"]),
+              "every non-null ruleset the compiler produced is kept by the engine",
+              "the Engine constructor passes a ruleset over under %s: a configured (enabled) ruleset that is not held is never prerun, checked or run, "
+              "although the configuration was accepted" % ([(k, p) for k, p in (bad[0][1] if bad else [])][:3]))
+
+
 def run(ctx):
+    engine_keeps_every_ruleset(ctx)
     from .C11 import instances_kept_only_if_ran
     instances_kept_only_if_ran(ctx)
     saved_context_is_a_copy(ctx, "C02")
